@@ -1543,7 +1543,7 @@ impl Runner {
             }
             let st = c.st.lock().unwrap();
             conns.push(json!({
-                "c": i, "mode": c.mode, "client": c.state, "coop": c.coop, "faulted": c.faulted,
+                "c": i, "mode": c.mode, "client": c.state, "coop": c.coop, "faulted": c.faulted, "plain": c.plain, "prefixed": c.prefixed,
                 "eof": eof, "rerr": st.rerr, "werr": st.werr, "tls": st.tls, "h2ready": st.h2ready,
                 "aidx": c.aidx, "spawnSeq": sc.spawn_seq, "told": sc.told, "fin": sc.fin, "finSeq": sc.fin_seq,
                 "extra": resps.len().saturating_sub(self.cfg.nreq),
